@@ -286,3 +286,145 @@ Proof.
   - unfold FsLoad.to_list. now rewrite lay_f_emb.
   - intros t Ht. apply full_data_fs. exact (proj1 (Forall_forall _ _) Hn t Ht).
 Qed.
+
+Lemma existsb_false_forall' {X} (p : X -> bool) l : (forall x, In x l -> p x = false) -> existsb p l = false.
+Proof. induction l as [|a l IH]; intros H; [reflexivity|]. cbn [existsb]. rewrite (H a (or_introl eq_refl)), IH; [reflexivity|]. intros x Hx. apply H. now right. Qed.
+
+(* ---- READER ---- *)
+(* what the general reader rebuilds from an FS entry: name and identity; the rest of the record is outside
+   its [dval] *)
+Definition rinfo_fs (idx : nat) (name : text) : info :=
+  I (Z.of_nat idx) (Z.of_nat idx) (Z.of_nat idx) false name (DInt (Z.of_nat idx)) None [].
+Definition ln_of (q : nat * nat * rt) : lnode := (q_pos q, q_ppos q, rinfo_fs (q_pos q) (i_name (rinfo (q_node q)))).
+
+Definition fs_ok_node (t : rt) : Prop := exists e, rinfo t = einfo (rid t) e /\ FsLoadProofs.entry_ok e.
+
+Lemma fs_dict_no_data_id e : dget k_data_id (tdict (FsLoad.ser e [])) = None.
+Proof. unfold FsLoad.ser. destruct (FsLoad.e_isdir e); reflexivity. Qed.
+
+Lemma deser_fs_ok idx e : FsLoadProofs.entry_ok e ->
+  deser_fs idx (tdict (FsLoad.ser e [])) = Ok (DV false (FsLoad.e_name e) (Z.of_nat idx)).
+Proof. intros H. unfold deser_fs. rewrite undict_tdict, (FsLoadProofs.deser_ser e [] eq_refl H). reflexivity. Qed.
+
+Section Reader.
+  Variable shash : text -> Z.
+  Variable whole : forest.
+  Hypothesis Hok : Forall fs_ok_node (pre_f whole).
+  Hypothesis Hpos : forall q, In q (lay_f 0 1 whole) -> rid (q_node q) = q_pos q.
+
+  Lemma lay_prefix A B : lay_f 0 1 whole = A ++ B -> map q_pos A = seq 1 (length A).
+  Proof.
+    intros E. assert (P := lay_f_positions whole 0 1). rewrite E, map_app in P.
+    assert (L : length (map q_pos A) = length A) by apply map_length.
+    assert (X : map q_pos A = firstn (length A) (seq 1 (size_f whole))) by (rewrite <- P, <- L, firstn_app, Nat.sub_diag, firstn_all; cbn; now rewrite app_nil_r).
+    rewrite X. assert (Ls : length A <= size_f whole).
+    { assert (Y := f_equal (@length nat) P). rewrite app_length, seq_length, map_length in Y. lia. }
+    replace (size_f whole) with (length A + (size_f whole - length A)) by lia. rewrite seq_app, firstn_app, seq_length, Nat.sub_diag. cbn [firstn].
+    rewrite app_nil_r. rewrite <- (seq_length (length A) 1) at 1. apply firstn_all.
+  Qed.
+
+  Lemma reader_go : forall B A, lay_f 0 1 whole = A ++ B ->
+    from_list_go CFs deser_fs shash (map (fun q => entry (q_ppos q) (fe_fs (q_node q))) B) (S (length A)) (map ln_of A)
+    = Ok (map ln_of (A ++ B)).
+  Proof.
+    induction B as [|q B IH]; intros A E; [now rewrite app_nil_r|].
+    assert (PA := lay_prefix A (q :: B) E).
+    assert (Hq : In q (lay_f 0 1 whole)) by (rewrite E; apply in_or_app; right; now left).
+    destruct (lay_f_range whole 0 1 q Hq) as [Hr Hp].
+    assert (Epos : q_pos q = S (length A)).
+    { assert (P := lay_f_positions whole 0 1). rewrite E, map_app in P. cbn [map] in P. symmetry in P. apply seq_split_pos in P. rewrite map_length in P. lia. }
+    assert (Hn : In (q_node q) (pre_f whole)) by (rewrite <- (lay_f_nodes whole 0 1); now apply in_map).
+    destruct (proj1 (Forall_forall _ _) Hok _ Hn) as (e & Ei & Eo).
+    destruct q as [[ppos pos] t]. cbn [q_pos q_ppos q_node fst snd] in *. subst pos.
+    cbn [map from_list_go]. cbn [q_ppos q_node q_pos fst snd]. unfold from_list_step, entry, jnat. cbn [is_intlike].
+    replace (Z.of_nat ppos <? 0)%Z with false by (symmetry; apply Z.ltb_ge; lia). rewrite Nat2Z.id.
+    assert (Pok : parent_ok (map ln_of A) ppos = true).
+    { unfold parent_ok. destruct Hp as [->|Hp]; [reflexivity|]. apply orb_true_iff. right.
+      assert (Hin : In ppos (map q_pos A)) by (rewrite PA; apply in_seq; lia).
+      apply in_map_iff in Hin. destruct Hin as (q' & Eq' & Hq').
+      unfold find_ln. destruct (find (fun e0 => Nat.eqb (ln_idx e0) ppos) (map ln_of A)) eqn:Ef; [reflexivity|].
+      exfalso. assert (X := find_none _ _ Ef (ln_of q') (in_map ln_of _ _ Hq')). cbn in X. rewrite Eq', Nat.eqb_refl in X. discriminate. }
+    rewrite Pok. cbn [negb]. unfold fe_fs. cbn [is_typed]. rewrite Ei, dec_einfo, fs_dict_no_data_id, (deser_fs_ok _ e Eo).
+    cbn [dv_hash dv_isstr dv_name]. unfold add_node.
+    replace (existsb _ (map ln_of A)) with false.
+    - assert (En : FsLoad.e_name e = i_name (rinfo t)) by (rewrite Ei; reflexivity).
+      assert (Ers : rid t = S (length A)) by (apply (Hpos (ppos, S (length A), t) Hq)).
+      replace (map ln_of A ++ [(S (length A), ppos, I (Z.of_nat (S (length A))) (Z.of_nat (S (length A))) (Z.of_nat (S (length A))) false (FsLoad.e_name e) (DInt (Z.of_nat (S (length A)))) None [])])
+        with (map ln_of (A ++ [(ppos, S (length A), t)])) by (rewrite map_app; cbn [map]; unfold ln_of, rinfo_fs; cbn [q_pos q_ppos q_node fst snd]; now rewrite En).
+      replace (S (S (length A))) with (S (length (A ++ [(ppos, S (length A), t)]))) by (rewrite app_length; cbn; lia).
+      replace (A ++ (ppos, S (length A), t) :: B) with ((A ++ [(ppos, S (length A), t)]) ++ B) by (now rewrite <- app_assoc).
+      apply (IH (A ++ [(ppos, S (length A), t)])). rewrite E, <- app_assoc. reflexivity.
+    - symmetry. apply existsb_false_forall'. intros x Hx. apply in_map_iff in Hx. destruct Hx as (q' & <- & Hq').
+      apply andb_false_iff. right. unfold ln_of, rinfo_fs, ln_info. cbn [snd i_did did_eqb].
+      apply Z.eqb_neq. assert (Hin : In (q_pos q') (map q_pos A)) by (now apply in_map). rewrite PA in Hin. apply in_seq in Hin. lia.
+  Qed.
+End Reader.
+
+(* what the general reader yields for an FS file: the same shape and positions, names as payload *)
+Fixpoint strip_t (t : rt) : rt := match t with T id i ch => T id (rinfo_fs id (i_name i)) (map strip_t ch) end.
+
+Lemma emb_ok : forall t pos pp, FsSaveLoadProofs.ok_t t ->
+  Forall fs_ok_node (pre (emb pos t)) /\ (forall q, In q (lay pp pos (emb pos t)) -> rid (q_node q) = q_pos q).
+Proof.
+  induction t as [e ch IH] using FsLoadProofs.ft_ind'. intros pos pp Hok. apply FsSaveLoadProofs.ok_t_FN in Hok as [He Hch].
+  rewrite emb_FN, pre_unfold, lay_unfold. cbn [rch].
+  assert (X : forall p pp0, Forall fs_ok_node (pre_f (emb_f p ch)) /\ (forall q, In q (lay_f pp0 p (emb_f p ch)) -> rid (q_node q) = q_pos q)).
+  { unfold FsSaveLoadProofs.ok_f in Hch. induction IH as [|c ch Hc Hcs IHch]; intros p pp0; [split; [constructor|intros q []]|].
+    inversion Hch as [|? ? Hokc Hokr]; subst. cbn [emb_f flat_map lay_f]. destruct (Hc p pp0 Hokc) as [A1 A2].
+    destruct (IHch Hokr (p + size (emb p c)) pp0) as [B1 B2]. rewrite emb_size in *.
+    split; [apply Forall_app; now split|]. intros q Hq. apply in_app_or in Hq. destruct Hq as [Hq|Hq]; [now apply A2|now apply B2]. }
+  destruct (X (S pos) pos) as [X1 X2]. split.
+  - constructor; [|exact X1]. exists e. split; [reflexivity|exact He].
+  - intros q [<-|Hq]; [reflexivity|now apply X2].
+Qed.
+
+Lemma emb_f_ok l : forall pos pp, FsSaveLoadProofs.ok_f l ->
+  Forall fs_ok_node (pre_f (emb_f pos l)) /\ (forall q, In q (lay_f pp pos (emb_f pos l)) -> rid (q_node q) = q_pos q).
+Proof.
+  induction l as [|c l IH]; intros pos pp Hok; [split; [constructor|intros q []]|]. inversion Hok as [|? ? Hc Hl]; subst.
+  cbn [emb_f flat_map lay_f]. destruct (emb_ok c pos pp Hc) as [A1 A2]. destruct (IH (pos + size (emb pos c)) pp Hl) as [B1 B2]. rewrite emb_size in *.
+  split; [apply Forall_app; now split|]. intros q Hq. apply in_app_or in Hq. destruct Hq as [Hq|Hq]; [now apply A2|now apply B2].
+Qed.
+
+Lemma relabel_emb infos : forall t pos, (forall x, In x (pre (emb pos t)) -> infos (rid x) = rinfo_fs (rid x) (i_name (rinfo x))) ->
+  relabel infos pos (emb pos t) = strip_t (emb pos t).
+Proof.
+  induction t as [e ch IH] using FsLoadProofs.ft_ind'. intros pos H. rewrite relabel_unfold, emb_FN. cbn [rch strip_t].
+  assert (H0 := H (emb pos (FsLoad.FN e ch)) ltac:(rewrite pre_unfold; now left)). rewrite emb_FN in H0. cbn [rid rinfo] in H0. rewrite H0. f_equal.
+  assert (Hc : forall x, In x (pre_f (emb_f (S pos) ch)) -> infos (rid x) = rinfo_fs (rid x) (i_name (rinfo x))).
+  { intros x Hx. apply H. rewrite emb_FN, pre_unfold. now right. }
+  clear H. revert Hc. generalize (S pos). induction IH as [|c ch Hcc Hcs IHch]; intros p Hc; [reflexivity|].
+  cbn [emb_f relabel_f map]. rewrite emb_size. f_equal.
+  - apply Hcc. intros x Hx. apply Hc. cbn [emb_f flat_map]. apply in_or_app. now left.
+  - apply IHch. intros x Hx. apply Hc. cbn [emb_f flat_map]. apply in_or_app. now right.
+Qed.
+
+Lemma relabel_emb_f infos l : forall pos, (forall x, In x (pre_f (emb_f pos l)) -> infos (rid x) = rinfo_fs (rid x) (i_name (rinfo x))) ->
+  relabel_f infos pos (emb_f pos l) = map strip_t (emb_f pos l).
+Proof.
+  induction l as [|c l IH]; intros pos H; [reflexivity|]. cbn [emb_f relabel_f map]. rewrite emb_size. f_equal.
+  - apply relabel_emb. intros x Hx. apply H. cbn [emb_f flat_map]. apply in_or_app. now left.
+  - apply IH. intros x Hx. apply H. cbn [emb_f flat_map]. apply in_or_app. now right.
+Qed.
+
+(* ---- READER: on the file FsLoad.to_list writes, Serialize.from_list (class CFs, FS deserialize mapper) rebuilds
+        the tree FsLoad.from_list rebuilds - same shape, same positions, same names (the rest of an entry is
+        not part of the general model's rebuilt data object) ---- *)
+Theorem fs_from_list_is_from_list shash (f : list FsLoad.ft) : FsSaveLoadProofs.ok_f f ->
+  from_list CFs deser_fs shash (map tr_entry (FsLoad.to_list f)) = Ok (map strip_t (emb_f 1 f)) /\
+  FsLoad.from_list (FsLoad.to_list f) = Some f.
+Proof.
+  intros Hok. split; [|exact (FsSaveLoadProofs.save_load_roundtrip f Hok)].
+  destruct (emb_f_ok f 1 0 Hok) as [Hn Hp]. set (whole := emb_f 1 f) in *.
+  unfold FsLoad.to_list. rewrite <- (lay_f_emb f 0 1). fold whole. unfold from_list.
+  assert (X := reader_go shash whole Hn Hp (lay_f 0 1 whole) [] eq_refl). cbn [length map app] in X. rewrite X.
+  f_equal. set (es := map ln_of (lay_f 0 1 whole)).
+  assert (E1 : map ln_idx es = map q_pos (lay_f 0 1 whole)) by (unfold es; rewrite map_map; reflexivity).
+  assert (E2 : map ln_par es = map q_ppos (lay_f 0 1 whole)) by (unfold es; rewrite map_map; reflexivity).
+  rewrite (unflat_forest whole es E1 E2). apply relabel_emb_f. intros x Hx. change (emb_f 1 f) with whole in Hx.
+  rewrite <- (lay_f_nodes whole 0 1) in Hx. apply in_map_iff in Hx. destruct Hx as (q & <- & Hq).
+  rewrite (Hp q Hq). unfold info_at.
+  assert (ND : NoDup (map ln_idx es)) by (rewrite E1, lay_f_positions; apply seq_NoDup).
+  assert (Hin : In (ln_of q) es) by (unfold es; now apply in_map).
+  assert (F := find_ln_unique es (ln_of q) ND Hin). cbn [ln_of ln_idx fst snd] in F. rewrite F. reflexivity.
+Qed.
